@@ -1780,12 +1780,15 @@ class _Synthetic:
         return self.tf.constant(w)
 
 
+_IMP = {"1+x": lambda x: 1.0 + x, "0.2+0.1x": lambda x: 0.2 + 0.1 * x}
+
+
 @group(["C20"], "iface.C20/accept_reject", ["generator.generator:multi_sampling", "generator.generator:single_sampling2", "generator.generator:GenTest.generate",
                                             "generator.generator:GenTest.add_gen", "generator.generator:GenTest.set_gen", "generator.generator:ARGenerator.generate"],
        env="tf", kind="B",
        bound="synthetic one-dimensional densities (peaked 1/((x-0.7)^2+0.01), ramp 0.05+x^2, zero on half of the range) over a deterministic low-discrepancy proposal; "
              "N in {1, 2, 7} x max_N in {16, 200000} x max_weight in {None, far too small, exact, too large} x force in {True, False} (seeds 0..4 for max_weight None); "
-             "N = 1000 with max_N in {64, 200000}; N = 5000; importance_f = 1+x on the peaked density; single_sampling2 with 1, 5, 1000 proposals")
+             "N = 1000 with max_N in {64, 200000}; N = 5000; importance_f = 1+x (>= 1) and 0.2+0.1x (< 1) on the peaked / ramp density; single_sampling2 with 1, 5, 1000 proposals")
 def c20_accept_reject(ctx):
     tf = ctx.mod("tensorflow_wrapper").tf
     G = ctx.mod("generator.generator")
@@ -1814,7 +1817,7 @@ def c20_accept_reject(ctx):
         if mw is not None:
             kw["max_weight"] = tf.constant(mw, dtype=tf.float64)
         if imp:
-            kw["importance_f"] = lambda d: 1.0 + d["kin"]["x"]
+            kw["importance_f"] = lambda d: _IMP[imp](d["kin"]["x"])
         with _quiet():
             out, err = _try(lambda: G.multi_sampling(syn.phsp, syn.amp, N, max_N=max_N, force=force, display=False, **kw))
         return syn, out, err
@@ -1833,10 +1836,13 @@ def c20_accept_reject(ctx):
         plan.append((shape, 5000, 200000, None, False, True, 0))
     for N, max_N in ((1, 16), (7, 16), (1000, 64), (1000, 200000)):
         for force in (True, False):
-            plan.append(("peak", N, max_N, None, True, force, 0))
+            plan.append(("peak", N, max_N, None, "1+x", force, 0))
+            # an importance function BELOW 1 (e.g. a normalised proposal density on a wide range): weight/g exceeds max(weight)
+            plan.append(("peak", N, max_N, None, "0.2+0.1x", force, 0))
+            plan.append(("ramp", N, max_N, None, "0.2+0.1x", force, 0))
     for shape, N, max_N, mwk, imp, force, seed in plan:
         mw = None if mwk is None else {"small": 1e-3, "exact": 1.0, "large": 10.0}[mwk] * true_max[shape]
-        w = {"density": shape, "N": N, "max_N": max_N, "max_weight": mw, "importance_f": "1+x" if imp else None, "force": force,
+        w = {"density": shape, "N": N, "max_N": max_N, "max_weight": mw, "importance_f": imp if imp else None, "force": force,
              "tf_seed": 1000 * ctx.seed + seed, "proposal_offset": 0.1 * seed}
         ctx.count(key=tuple(w.values()), sample=w)
         syn, out, err = run(shape, N, max_N, mw, imp, force, seed)
@@ -1853,8 +1859,8 @@ def c20_accept_reject(ctx):
         acc.add("row_integrity", bool(ok), dict(w, returned=n))
         if mwk != "small":
             allx = syn.x_of(np.arange(syn.next_id))
-            wk = syn.w_np(x) / ((1.0 + x) if imp else 1.0)
-            top = syn.max_seen if not imp else float(np.max(syn.w_np(allx) / (1.0 + allx)))
+            wk = syn.w_np(x) / (_IMP[imp](x) if imp else 1.0)
+            top = syn.max_seen if not imp else float(np.max(syn.w_np(allx) / _IMP[imp](allx)))
             b = float(bound)
             ok = bool(np.isfinite(b) and (n == 0 or np.max(wk) <= b) and top <= b)
             acc.add("bound_covers_all_weights", ok, dict(w, final_bound=b, largest_kept_weight=float(np.max(wk)) if n else None, largest_weight_of_any_proposal=top,
